@@ -500,6 +500,25 @@ def oracle_rotation_set(ck, rng):
     if not np.allclose(q, r.as_quat(canonical=False)):
         ck.violation(what="normalize_rotations(Rotation) changed order/values", inp={}, key={"site": "normalize_rotations"},
                      oracle="rotation_set")
+    # a list of single rotations, no rotations at all, and the model factory's view of the same specification
+    from acryo.alignment import ZNCCAlignment
+    singles = [Rotation.from_rotvec(v_) for v_ in (rng.normal(size=(4, 3)) * 0.5)]
+    ql = normalize_rotations(singles)
+    ck.oracle_count("rotation_set", 3, 3)
+    if np.asarray(ql).shape != (4, 4) or not np.allclose(ql, np.stack([r_.as_quat(canonical=False) for r_ in singles]), atol=1e-6):
+        ck.violation(what="normalize_rotations([Rotation, ...]) changed order/values", inp={}, key={"site": "normalize_rotations", "form": "list"}, oracle="rotation_set")
+    q0 = normalize_rotations(None)
+    if np.asarray(q0).shape != (1, 4) or not np.allclose(q0, [[0, 0, 0, 1]]):
+        ck.violation(what=f"normalize_rotations(None) = {np.asarray(q0).tolist()} instead of the identity alone", inp={}, key={"site": "normalize_rotations", "form": "none"},
+                     oracle="rotation_set")
+    for spec in (((10, 5), (0, 0), (4, 2)), r, singles, None):
+        pm = ZNCCAlignment.with_params(rotations=spec) if spec is not None else ZNCCAlignment.with_params()
+        want_q = normalize_rotations(spec)
+        tm = np.zeros((4, 4, 4), np.float32); tm[1, 2, 1] = 1
+        built = pm(tm)
+        if not (np.allclose(pm.quaternions, want_q) and pm.has_rotation == (len(want_q) > 1) and np.allclose(built.quaternions, want_q) and built.has_rotation == (len(want_q) > 1)):
+            ck.violation(what="the model factory (with_params) and the model it builds disagree with normalize_rotations about the searched rotations",
+                         inp={"spec": repr(spec)[:200]}, key={"site": "normalize_rotations", "form": "factory"}, oracle="rotation_set")
 
 
 def run(ck: common.Check):
